@@ -9,11 +9,9 @@
 package c06
 
 import (
-	"bufio"
 	"bytes"
 	"encoding/json"
 	"fmt"
-	"io"
 	"math/rand"
 	"os"
 	"os/exec"
@@ -384,73 +382,6 @@ func partialRemoval(o c06wl.BlobObs, old *blobM) bool {
 	return len(o.MDErr) == 0
 }
 
-// ---------------------------------------------------------------- recovery child
-
-type recoverProc struct {
-	bin    string
-	cmd    *exec.Cmd
-	in     io.WriteCloser
-	out    *bufio.Reader
-	stderr *bytes.Buffer
-}
-
-func (p *recoverProc) start() error {
-	p.cmd = exec.Command(p.bin, "recover")
-	p.stderr = &bytes.Buffer{}
-	p.cmd.Stderr = p.stderr
-	in, err := p.cmd.StdinPipe()
-	if err != nil {
-		return err
-	}
-	out, err := p.cmd.StdoutPipe()
-	if err != nil {
-		return err
-	}
-	p.in, p.out = in, bufio.NewReaderSize(out, 1<<20)
-	return p.cmd.Start()
-}
-
-func (p *recoverProc) stop() {
-	if p.cmd != nil {
-		_ = p.in.Close()
-		_ = p.cmd.Wait()
-		p.cmd = nil
-	}
-}
-
-// ask returns died=true when the recovery process died on this request.
-func (p *recoverProc) ask(req c06wl.RecoverReq) (resp c06wl.RecoverResp, died bool, stderr string, err error) {
-	if p.cmd == nil {
-		if err = p.start(); err != nil {
-			return
-		}
-	}
-	b, _ := json.Marshal(req)
-	if _, werr := p.in.Write(append(b, '\n')); werr != nil {
-		died = true
-	}
-	var line []byte
-	if !died {
-		line, err = p.out.ReadBytes('\n')
-		if err != nil {
-			died, err = true, nil
-		}
-	}
-	if died {
-		_ = p.in.Close()
-		_ = p.cmd.Wait()
-		stderr = p.stderr.String()
-		if len(stderr) > 6000 {
-			stderr = stderr[len(stderr)-6000:]
-		}
-		p.cmd = nil
-		return
-	}
-	p.stderr.Reset()
-	err = json.Unmarshal(line, &resp)
-	return
-}
-
 // ---------------------------------------------------------------- oracle
 
 type finding struct {
@@ -460,20 +391,21 @@ type finding struct {
 }
 
 type wlResult struct {
-	idx          int
-	findings     []finding
-	inconclusive []string
-	prefixes     int
-	midOp        int
-	syscalls     int
-	steps        int
-	kills        int
-	killsOK      int
-	fidelityOK   bool
-	tolerated    int
-	cases        []caseRec
-	sample       interface{}
-	windows      map[string]int
+	idx           int
+	findings      []finding
+	inconclusive  []string
+	prefixes      int
+	midOp         int
+	syscalls      int
+	steps         int
+	kills         int
+	killsOK       int
+	killsSelfOnly int
+	fidelityOK    bool
+	tolerated     int
+	cases         []caseRec
+	sample        interface{}
+	windows       map[string]int
 }
 
 type caseRec struct {
@@ -541,7 +473,9 @@ func runWorkload(t *testing.T, bin, base string, w workload, run *ev.Run, killRa
 	}
 	root := filepath.Join(dir, "root")
 	logPath := filepath.Join(dir, "strace.log")
+	t0 := time.Now()
 	stdout, stderr, err := fsrec.Record([]string{bin, "work", specPath, root}, os.Environ(), logPath, nil, 2*time.Minute)
+	tRecord := time.Since(t0)
 	if err != nil {
 		res.inconclusive = append(res.inconclusive, fmt.Sprintf("workload %d: recording failed: %v: %s", w.idx, err, tail(stderr, 800)))
 		return
@@ -586,8 +520,8 @@ func runWorkload(t *testing.T, bin, base string, w workload, run *ev.Run, killRa
 	for i, k := range w.keys {
 		recreate[k] = bytes.Repeat([]byte{byte('a' + i)}, 5+3*i)
 	}
-	proc := &recoverProc{bin: bin}
-	defer proc.stop()
+	var reqs [][]byte
+	var judges []func(fsrec.Reply)
 	live, err := fsrec.NewReplayer(filepath.Join(dir, "live"))
 	if err != nil {
 		res.inconclusive = append(res.inconclusive, err.Error())
@@ -627,156 +561,170 @@ func runWorkload(t *testing.T, bin, base string, w workload, run *ev.Run, killRa
 		if mid {
 			res.midOp++
 		}
-		scratch := filepath.Join(dir, "scratch")
-		_ = os.RemoveAll(scratch)
+		scratch := filepath.Join(dir, fmt.Sprintf("p%d", k))
 		if err := fsrec.CopyTree(live.Dir, scratch); err != nil {
 			res.inconclusive = append(res.inconclusive, fmt.Sprintf("workload %d: copy: %v", w.idx, err))
 			return
 		}
 		snap, _ := fsrec.Snapshot(scratch)
-		resp, died, perr, err := proc.ask(c06wl.RecoverReq{Dir: scratch, Config: w.spec.Config, Keys: w.keys, Recreate: recreate})
-		if err != nil {
-			res.inconclusive = append(res.inconclusive, fmt.Sprintf("workload %d: recovery child: %v", w.idx, err))
-			return
-		}
-		wk := windowKind(inflight, "")
-		res.windows[wk]++
-		witness := func(extra map[string]interface{}) map[string]interface{} {
-			m := map[string]interface{}{
-				"workload": w.idx, "config": w.spec.Config, "spec": w.spec, "prefix_k": k, "total_ops": len(ops),
-				"completed_steps": completedSteps, "tree_before_recovery": fsrec.Listing(snap),
+		rb, _ := json.Marshal(c06wl.RecoverReq{Dir: scratch, Config: w.spec.Config, Keys: w.keys, Recreate: recreate})
+		reqs = append(reqs, rb)
+		judges = append(judges, func(rep fsrec.Reply) {
+			var resp c06wl.RecoverResp
+			died, perr := rep.Died, rep.Stderr
+			if !died {
+				if err := json.Unmarshal(rep.Line, &resp); err != nil {
+					res.inconclusive = append(res.inconclusive, fmt.Sprintf("workload %d: bad recovery answer: %v", w.idx, err))
+					return
+				}
 			}
+			wk := windowKind(inflight, "")
+			res.windows[wk]++
+			witness := func(extra map[string]interface{}) map[string]interface{} {
+				m := map[string]interface{}{
+					"workload": w.idx, "config": w.spec.Config, "spec": w.spec, "prefix_k": k, "total_ops": len(ops),
+					"completed_steps": completedSteps, "tree_before_recovery": fsrec.Listing(snap),
+				}
+				if inflight != nil {
+					m["in_flight_step"] = stepDesc(inflightIdx)
+					m["next_syscall_not_executed"] = ops[k].String()
+				}
+				if k > 0 {
+					m["last_syscall_executed"] = ops[k-1].String()
+				}
+				for a, b := range extra {
+					m[a] = b
+				}
+				return m
+			}
+			addF := func(sig string, extra map[string]interface{}) {
+				res.findings = append(res.findings, finding{Sig: sig, Case: caseID, Witness: witness(extra)})
+			}
+			if died {
+				addF("recovery-process-died/"+wk, map[string]interface{}{"stderr": perr})
+				return
+			}
+			if resp.Panic != "" {
+				addF("recovery-panics/"+wk, map[string]interface{}{"panic": resp.Panic})
+				return
+			}
+			if resp.OpenErr != "" {
+				sig := "newstore-fails/" + wk
+				if strings.Contains(resp.OpenErr, "blob size sidecar file is in unexpected format") {
+					sig = "newstore-fails/empty-size-sidecar"
+				}
+				addF(sig, map[string]interface{}{"newstore_error": resp.OpenErr})
+				return
+			}
+			old := models[completedSteps]
+			var nw modelState
+			var aff map[string]bool
 			if inflight != nil {
-				m["in_flight_step"] = stepDesc(inflightIdx)
-				m["next_syscall_not_executed"] = ops[k].String()
+				nw = models[inflightIdx+1]
+				aff = affected[inflightIdx]
 			}
-			if k > 0 {
-				m["last_syscall_executed"] = ops[k-1].String()
+			universe := map[string]bool{}
+			for _, key := range w.keys {
+				universe[key] = true
 			}
-			for a, b := range extra {
-				m[a] = b
-			}
-			return m
-		}
-		addF := func(sig string, extra map[string]interface{}) {
-			res.findings = append(res.findings, finding{Sig: sig, Case: caseID, Witness: witness(extra)})
-		}
-		if died {
-			addF("recovery-process-died/"+wk, map[string]interface{}{"stderr": perr})
-			continue
-		}
-		if resp.Panic != "" {
-			addF("recovery-panics/"+wk, map[string]interface{}{"panic": resp.Panic})
-			continue
-		}
-		if resp.OpenErr != "" {
-			sig := "newstore-fails/" + wk
-			if strings.Contains(resp.OpenErr, "blob size sidecar file is in unexpected format") {
-				sig = "newstore-fails/empty-size-sidecar"
-			}
-			addF(sig, map[string]interface{}{"newstore_error": resp.OpenErr})
-			continue
-		}
-		old := models[completedSteps]
-		var nw modelState
-		var aff map[string]bool
-		if inflight != nil {
-			nw = models[inflightIdx+1]
-			aff = affected[inflightIdx]
-		}
-		universe := map[string]bool{}
-		for _, key := range w.keys {
-			universe[key] = true
-		}
-		for _, key := range resp.ListAny {
-			if !universe[key] {
-				addF("unknown-key-listed/"+wk, map[string]interface{}{"key": key})
-			}
-		}
-		var sumSizes uint64
-		for _, key := range w.keys {
-			o := resp.Blobs[key]
-			if o.Present {
-				sumSizes += o.Size
-			}
-			eOld := recovered(old[key], w.spec.Config)
-			okOld, why := matches(o, eOld)
-			ok := okOld
-			var eNew *blobM
-			if !ok && aff[key] {
-				eNew = recovered(nw[key], w.spec.Config)
-				ok, _ = matches(o, eNew)
-				if !ok && nw[key] == nil && partialRemoval(o, eOld) {
-					ok = true
-					res.tolerated++
-				}
-				// the restart wipe of incomplete blobs (reboot=false) in flight
-				if !ok && inflight.Op == "reopen" && old[key] != nil && !old[key].Complete && !o.Present {
-					ok = true
+			for _, key := range resp.ListAny {
+				if !universe[key] {
+					addF("unknown-key-listed/"+wk, map[string]interface{}{"key": key})
 				}
 			}
-			if !ok {
-				addF("recovered-state-wrong/"+why+"/"+windowKind(inflight, key), map[string]interface{}{
-					"key": key, "observed": o, "expected_old": eOld, "expected_new_if_in_flight_applies": eNew,
-				})
-			}
-			if o.Present {
-				// ListMetadata must agree with GetMetadata
-				have := map[string]bool{}
-				for s := range o.MD {
-					have[s] = true
+			var sumSizes uint64
+			for _, key := range w.keys {
+				o := resp.Blobs[key]
+				if o.Present {
+					sumSizes += o.Size
 				}
-				for s := range o.MDErr {
-					have[s] = true
-				}
-				bad := o.ListErr != ""
-				seen := map[string]bool{}
-				for _, s := range o.Listed {
-					if !have[s] || seen[s] {
-						bad = true
+				eOld := recovered(old[key], w.spec.Config)
+				okOld, why := matches(o, eOld)
+				ok := okOld
+				var eNew *blobM
+				if !ok && aff[key] {
+					eNew = recovered(nw[key], w.spec.Config)
+					ok, _ = matches(o, eNew)
+					if !ok && nw[key] == nil && partialRemoval(o, eOld) {
+						ok = true
+						res.tolerated++
 					}
-					seen[s] = true
-				}
-				for s := range have {
-					if !seen[s] {
-						bad = true
+					// the restart wipe of incomplete blobs (reboot=false) in flight
+					if !ok && inflight.Op == "reopen" && old[key] != nil && !old[key].Complete && !o.Present {
+						ok = true
 					}
 				}
-				if bad {
-					sig := "listmetadata-disagrees-with-getmetadata/" + wk
-					if hasTmpFile(snap, blobDir(w.spec.Config, key, o.Complete)) {
-						sig = "leftover-metadata-tmp-file-listed-as-metadata"
+				if !ok {
+					addF("recovered-state-wrong/"+why+"/"+windowKind(inflight, key), map[string]interface{}{
+						"key": key, "observed": o, "expected_old": eOld, "expected_new_if_in_flight_applies": eNew,
+					})
+				}
+				if o.Present {
+					// ListMetadata must agree with GetMetadata
+					have := map[string]bool{}
+					for s := range o.MD {
+						have[s] = true
 					}
-					addF(sig, map[string]interface{}{"key": key, "listed": o.Listed, "getmetadata_ok": keysOf(o.MD), "observed": o})
+					for s := range o.MDErr {
+						have[s] = true
+					}
+					bad := o.ListErr != ""
+					seen := map[string]bool{}
+					for _, s := range o.Listed {
+						if !have[s] || seen[s] {
+							bad = true
+						}
+						seen[s] = true
+					}
+					for s := range have {
+						if !seen[s] {
+							bad = true
+						}
+					}
+					if bad {
+						sig := "listmetadata-disagrees-with-getmetadata/" + wk
+						if hasTmpFile(snap, blobDir(w.spec.Config, key, o.Complete)) {
+							sig = "leftover-metadata-tmp-file-listed-as-metadata"
+						}
+						addF(sig, map[string]interface{}{"key": key, "listed": o.Listed, "getmetadata_ok": keysOf(o.MD), "observed": o})
+					}
 				}
 			}
-		}
-		if resp.Reserved != sumSizes {
-			addF("reserved-size-accounting-differs/"+wk, map[string]interface{}{"reserved": resp.Reserved, "sum_of_blob_sizes": sumSizes})
-		}
-		for _, key := range w.keys {
-			rc, ok := resp.Recreate[key]
-			if !ok {
-				addF("recreate-not-attempted/"+wk, map[string]interface{}{"key": key})
-				continue
+			if resp.Reserved != sumSizes {
+				addF("reserved-size-accounting-differs/"+wk, map[string]interface{}{"reserved": resp.Reserved, "sum_of_blob_sizes": sumSizes})
 			}
-			if rc.Stage == "" {
-				continue
+			for _, key := range w.keys {
+				rc, ok := resp.Recreate[key]
+				if !ok {
+					addF("recreate-not-attempted/"+wk, map[string]interface{}{"key": key})
+					continue
+				}
+				if rc.Stage == "" {
+					continue
+				}
+				idir, cdir := blobDir(w.spec.Config, key, false), blobDir(w.spec.Config, key, true)
+				_, iData := snap[idir+"/data"]
+				_, iSize := snap[idir+"/_size"]
+				_, cDir := snap[cdir]
+				_, cData := snap[cdir+"/data"]
+				sig := fmt.Sprintf("recreate-fails/%s/%s", rc.Stage, windowKind(inflight, key))
+				switch {
+				case rc.Stage == "create" && strings.Contains(rc.Err, "file exists") && iData && !iSize && w.spec.Config.Reboot:
+					sig = "orphan-incomplete-blob-without-size-sidecar-blocks-create"
+				case rc.Stage == "markcomplete" && (strings.Contains(rc.Err, "not empty") || strings.Contains(rc.Err, "file exists")) && cDir && !cData:
+					sig = "orphan-complete-dir-without-data-blocks-markcomplete"
+				}
+				addF(sig, map[string]interface{}{"key": key, "stage": rc.Stage, "error": rc.Err})
 			}
-			idir, cdir := blobDir(w.spec.Config, key, false), blobDir(w.spec.Config, key, true)
-			_, iData := snap[idir+"/data"]
-			_, iSize := snap[idir+"/_size"]
-			_, cDir := snap[cdir]
-			_, cData := snap[cdir+"/data"]
-			sig := fmt.Sprintf("recreate-fails/%s/%s", rc.Stage, windowKind(inflight, key))
-			switch {
-			case rc.Stage == "create" && strings.Contains(rc.Err, "file exists") && iData && !iSize && w.spec.Config.Reboot:
-				sig = "orphan-incomplete-blob-without-size-sidecar-blocks-create"
-			case rc.Stage == "markcomplete" && (strings.Contains(rc.Err, "not empty") || strings.Contains(rc.Err, "file exists")) && cDir && !cData:
-				sig = "orphan-complete-dir-without-data-blocks-markcomplete"
-			}
-			addF(sig, map[string]interface{}{"key": key, "stage": rc.Stage, "error": rc.Err})
-		}
+		})
+	}
+	replies, err := fsrec.Pipeline([]string{bin, "recover"}, os.Environ(), reqs, 10*time.Minute)
+	if err != nil {
+		res.inconclusive = append(res.inconclusive, fmt.Sprintf("workload %d: recovery child: %v", w.idx, err))
+		return
+	}
+	for i, j := range judges {
+		j(replies[i])
 	}
 	if res.sample == nil {
 		var descr []string
@@ -785,6 +733,10 @@ func runWorkload(t *testing.T, bin, base string, w workload, run *ev.Run, killRa
 		}
 		res.sample = map[string]interface{}{"workload": w.idx, "config": w.spec.Config, "steps": descr, "fs_mutations": len(ops), "prefixes": res.prefixes}
 	}
+	tPrefixes := time.Since(t0) - tRecord
+	defer func() {
+		t.Logf("workload %d: %d steps, %d fs mutations, record %v, prefixes %v, total %v", w.idx, res.steps, res.syscalls, tRecord, tPrefixes, time.Since(t0))
+	}()
 	// cross-validation by real kills
 	if replayK < 0 && len(ops) > 0 {
 		for i := 0; i < nKills; i++ {
@@ -795,9 +747,15 @@ func runWorkload(t *testing.T, bin, base string, w workload, run *ev.Run, killRa
 			ks := fsrec.KillAt(ops[k])
 			_, _, _ = fsrec.Record([]string{bin, "work", specPath, kroot}, os.Environ(), klog, &ks, 2*time.Minute)
 			res.kills++
-			n, err := rec.CrossValidate(klog, kroot, dir, nil)
+			n, exact, err := rec.CrossValidate(klog, kroot, dir, nil)
 			if err != nil {
 				res.inconclusive = append(res.inconclusive, fmt.Sprintf("workload %d: engine fault: real kill before op %d: %v", w.idx, k, err))
+				continue
+			}
+			if !exact {
+				// the killed execution legitimately took another path (map iteration order
+				// inside kraken); only its own log could be compared with its tree
+				res.killsSelfOnly++
 				continue
 			}
 			if n != k {
@@ -845,7 +803,7 @@ func TestC06(t *testing.T) {
 		run.Inconclusive("strace not available")
 		return
 	}
-	nW := run.N(8, 80)
+	nW := run.N(12, 200)
 	nSteps := func(i int) int { return run.N(14, 22) + (i%3)*3 }
 	nKills := run.N(2, 3)
 	configs := []c06wl.Config{
@@ -911,6 +869,7 @@ func TestC06(t *testing.T) {
 		run.Count("crash_prefixes_mid_operation", int64(res.midOp))
 		run.Count("real_kill_cross_validations", int64(res.kills))
 		run.Count("real_kill_cross_validations_matching", int64(res.killsOK))
+		run.Count("real_kill_cross_validations_divergent_execution_self_replay_only", int64(res.killsSelfOnly))
 		run.Count("tolerated_partial_removal_states", int64(res.tolerated))
 		for wk, n := range res.windows {
 			run.Count("window_"+wk, int64(n))
